@@ -87,14 +87,16 @@ UnusedName(res, name, ty) ==
 IdentMap(e) ==
   LET chs[i \in 0..Len(e.ch)] ==
         IF i = 0 THEN [res |-> <<>>, ids |-> <<>>]
-        ELSE LET id == UnusedName(chs[i - 1].res, ToValidKey(e.ch[i].e.name, e.name), "child")
-             IN [res |-> Append(chs[i - 1].res, id), ids |-> Append(chs[i - 1].ids, id)]
+        ELSE LET prev == chs[i - 1]       \* bound once: TLC does not memoise recursive function applications
+                 id == UnusedName(prev.res, ToValidKey(e.ch[i].e.name, e.name), "child")
+             IN [res |-> Append(prev.res, id), ids |-> Append(prev.ids, id)]
       ats[i \in 0..Len(e.attrs)] ==
         IF i = 0 THEN [res |-> chs[Len(e.ch)].res, ids |-> <<>>]
-        ELSE LET id == UnusedName(ats[i - 1].res, ToValidKey(e.attrs[i].v, e.name), "attr")
-             IN [res |-> Append(ats[i - 1].res, id), ids |-> Append(ats[i - 1].ids, id)]
-  IN [ch |-> chs[Len(e.ch)].ids, at |-> ats[Len(e.attrs)].ids,
-      text |-> UnusedName(ats[Len(e.attrs)].res, TextStr, "text")]
+        ELSE LET prev == ats[i - 1]
+                 id == UnusedName(prev.res, ToValidKey(e.attrs[i].v, e.name), "attr")
+             IN [res |-> Append(prev.res, id), ids |-> Append(prev.ids, id)]
+      last == ats[Len(e.attrs)]
+  IN [ch |-> chs[Len(e.ch)].ids, at |-> last.ids, text |-> UnusedName(last.res, TextStr, "text")]
 
 \* the map is keyed by (real name, type): with duplicate names the last insertion wins
 LastIdx(names, n) == CHOOSE i \in 1..Len(names) : names[i] = n /\ \A j \in 1..Len(names) : names[j] = n => j <= i
